@@ -91,8 +91,9 @@ OnRet(s, e) ==
   [st |-> s,
    cl |->
      IF s.resp = None
-     THEN << <<"MACHINERY_no_response_recorded", Disco # "echo">>,
-             <<"disco_wrong_msgid_accepted", e.kind = "exc" /\ e.cls = "InvalidResponseId">> >>
+     THEN \* the operation never reached the agent: the discovery exchange was refused
+          IF Disco = "echo" THEN << <<"disco_matching_msgid_rejected", FALSE>> >>
+          ELSE << <<"disco_wrong_msgid_accepted", e.kind = "exc" /\ e.cls = "InvalidResponseId">> >>
      ELSE LET r == s.resp vb == NormB(r.vbs)
               idok == r.reqid = s.req.reqid IN
           IF ~(r.commok /\ r.verok)
@@ -102,7 +103,8 @@ OnRet(s, e) ==
                   <<"non_snmp_exception", e.snmp>>,
                   <<"wrong_exception_class", e.cls = ErrClass(r.es) \/ (~idok /\ e.cls = "InvalidResponseId")>>,
                   <<"wrong_status", e.cls = "InvalidResponseId" \/ e.status = r.es>>,
-                  <<"wrong_offending_oid", e.cls = "InvalidResponseId" \/ (r.ei \in DOMAIN vb => e.oid = vb[r.ei][1])>> >>
+                  <<"wrong_offending_oid", e.cls = "InvalidResponseId" \/ (r.ei \in DOMAIN vb => e.oid = vb[r.ei][1])>>,
+                  <<"offending_oid_not_selected", e.cls = "InvalidResponseId" \/ (r.ei \notin DOMAIN vb => e.oid = <<>>)>> >>
           ELSE IF ~idok
           THEN << <<"accepted_wrong_id", e.kind = "exc">>,
                   <<"wrong_id_other_exception", e.cls = "InvalidResponseId">> >>
